@@ -268,7 +268,7 @@ def volume_laplacian(mesh : VolumeMesh) -> sp.lil_matrix:
             l = distance(mesh.vertices[K], mesh.vertices[L])
             _,_,Z1 = face_basis(*(mesh.vertices[_u] for _u in (I,K,L)))
             _,_,Z2 = face_basis(*(mesh.vertices[_u] for _u in (J,L,K)))
-            cot = abs(dot(Z1,Z2))/norm(cross(Z1,Z2))
+            cot = -dot(Z1,Z2)/norm(cross(Z1,Z2)) # Z1 and Z2 are both outward (or both inward) normals: their angle is pi - dihedral angle
             omega += l * cot / 6
         mat[I,I] += omega
         mat[J,J] += omega
